@@ -389,7 +389,9 @@ inductive JobResult
 def buildJob (E : Engine) (d : Defects) (cx : Ctx) (fuel : Nat) (t : Nat) (w : World) : JobResult × World :=
   let sf0 := w.recs t
   match shouldBuild cx fuel t w with
-  | (none, w) => (.abort EXIT_TARGET_FAILED, w)
+  | (none, w) =>
+    -- pinned behaviour: the error left `builder::run`; repaired: it is this job's result
+    (if d.failedTargetAbortsRun then .abort EXIT_TARGET_FAILED else .done EXIT_TARGET_FAILED, w)
   | (some .cyclic, w) => (.abort EXIT_CYCLIC_DEPENDENCY, w)
   | (some .clean, w) => (.done 0, w)
   | (some .dirty, w) => let (rv, w) := startSelf E d cx t sf0 w; (.done rv, w)
